@@ -226,6 +226,7 @@ func init() {
 		})
 		// simultaneous timed matches on the shared clock (leg B of C14): each returns what it returns alone
 		c14BurstLeg(c)
+		c14SchedLeg(c)
 		regexp2.SetTimeoutCheckPeriod(callmix.ClockPeriod)
 		bin, err := buildRaceBinary()
 		if err != nil {
